@@ -208,6 +208,19 @@ def features(events, obs):
             f.add("close")
             if any(k == "fire" for k in kinds):
                 f.add("close_with_pending")
+        if op == "make" and " ; " in e:
+            f.add("hook_multi_action")
+        # the pathological endpoint connected from inside connector.cancel()
+        if "cancelConnect" in kinds and "lose" in kinds:
+            f.add("stubborn_connect_in_cancel")
+        depth = 0
+        for k in kinds:
+            if k == "hook":
+                depth += 1
+                if depth >= 2:
+                    f.add("hook_nested")
+            elif k == "endhook":
+                depth -= 1
     return f
 
 
